@@ -229,7 +229,14 @@ int main()
 		std::vector<std::string> v=split(line);
 		std::string out;
 		try {
-			if(v.size()>=3 && v[0]=="H") out=run_history(v);
+			if(v.size()>=3 && v[0]=="H") {
+				// booster::thread_specific_ptr keeps its pthread key (and the tcp_cache with its connections) until the
+				// calling thread exits: run every history on a thread of its own
+				std::string err;
+				std::thread th([&]() { try { out=run_history(v); } catch(std::exception const &e) { err=e.what(); } });
+				th.join();
+				if(!err.empty()) out="EXCEPTION "+err;
+			}
 			else if(v.size()>=4 && v[0]=="P") out=run_probe(v,fs);
 			else out="BAD-CASE";
 		}
